@@ -100,7 +100,7 @@ func (c *Ctx) rulesR5auto(a *coreAnchors) {
 				for _, b := range hf.Blocks {
 					for _, ins := range b.Instrs {
 						phi, ok := ins.(*ssa.Phi)
-						if !ok || phi.Comment != "result" {
+						if !ok || namedOf(phi.Type()) == nil || namedOf(phi.Type()).Obj().Name() != "Result" {
 							continue
 						}
 						for i, e := range phi.Edges {
@@ -1245,7 +1245,7 @@ func (c *Ctx) rulesR5selfret() {
 		for _, b := range f.Blocks {
 			for _, ins := range b.Instrs {
 				phi, ok := ins.(*ssa.Phi)
-				if !ok || phi.Comment != "ret" {
+				if !ok {
 					continue
 				}
 				if bt := namedOf(phi.Type()); bt == nil || bt.Obj().Name() != "Result" {
